@@ -9,16 +9,16 @@ HOOK_COMMITS = subprocess.run(["git", "-C", "/repo", "log", "--format=%H", "--gr
 CHECKS = {
  "C01": ("reference-model monitor: differential of every search against an independent ordered-backtracking matcher at the API boundary; lock-step shadow hook underneath",
          "Every search of the explored pattern x text x offset space runs on the real crate and is compared with an executable model; held = no disagreement on the executions produced.",
-         "Trusted: the harness reference matcher (refm.rs) as the definition of the semantics; patterns with an unbounded repeat of a nullable body are left out (finding F1) and probed by witnesses.", "3 C01"),
+         "Trusted: the harness reference matcher (refm.rs) as the definition of the semantics; patterns with an unbounded repeat of a nullable body are left out (finding F1) and probed by witnesses; alternations whose branches share a variable-length leading element are attributed to finding FY (the dependency's common-prefix rewrite).", "3 C01"),
  "C02": ("reference-model monitor: all capture groups vs the reference match path",
          "Every group of every successful search in the explored space is compared with the model's winning path.",
          "Trusted: reference rule 3 (last participating iteration); cases whose overall span differs are left to C01.", "3 C02"),
  "C03": ("metamorphic monitor: P vs P with an empty look-ahead injected at every site, both executed on the real crate",
          "Every (base, variant) pair of the explored space must give identical captures on all texts; evidence counts pairs whose VM/automata split really differs.",
-         "No reference involved; F1-class base patterns are left out because the two engines differ there.", "3 C03"),
+         "No reference involved; F1-class base patterns are left out because the two engines differ there; FY-class bases (common-prefix alternations) are attributed to the listed finding.", "3 C03"),
  "C04": ("reference-model monitor with the regex crate as the executable model, whole API surface",
          "Every common-syntax pattern of the explored space x every text x ~60 API calls is compared with regex::Regex.",
-         "Both crates share regex-automata, so a fault inside it is invisible here; FX / FL / F1 classes are listed findings.", "3 C04"),
+         "Both crates share regex-automata, so a fault inside it is invisible here; FX / FL / F1 / FY classes are listed findings.", "3 C04"),
  "C05": ("panic / overflow monitor (catch_unwind, overflow-checks and debug-assertions compiled into the subject) plus offset-validity oracle on every reported span",
          "All public search entry points are driven over the unrestricted grammar and multi-byte texts; every span is validated and the slicing sites are executed.",
          "Err(RuntimeError) is an allowed outcome; runs use a backtrack limit and a VM step cap (cap hits are inconclusive cases).", "3 C05"),
